@@ -99,7 +99,7 @@ def judge_hidden(feats: Sequence[str], targets: Sequence[str], form: str, res: D
                 res['violations'].append(core.violation('/'.join(sig), f'{list(feats)} with {t} hidden ({form}): {what}', case))
         # the rest of the site must still be consistent (no dead links introduced by hiding)
         for sig, what in site.crawl(str(r.out), r.system, pages):
-            if sig[2] in ('superseded-duplicate',) or sig[1] == 'all-documents.url' or (sig[0] == 'dead-anchor' and sig[1] == 'a.'):
+            if sig[2] in ('superseded-duplicate',) or sig[1] == 'all-documents.url' or sig[2] == 'hierarchy-entry-below-superseded-class':
                 continue      # C11 known findings
             if ('after-hiding',) + sig not in seen:
                 seen.add(('after-hiding',) + sig)
